@@ -34,7 +34,7 @@ def reduceOp (env : OpEnv) : ReduceOp
   | .buildScriptAddress, [x] =>
     let mk (b : Bytes) : Outcome Expr :=
       if b.length = 28 then .ok (.leaf (.address ((if env.mainnet then 0x71 else 0x70) :: b)))
-      else .panic "pallas:Hash::from(&[u8]):length"
+      else opErr "CoerceError:28-byte hash"
     (match x with
      | .leaf (.bytes b) => mk b
      | .leaf (.hash b) => mk b
@@ -44,21 +44,24 @@ def reduceOp (env : OpEnv) : ReduceOp
     let lovelace ← (match env.latestOutputs with
       | none => (.ok (197 * env.coinsPerByte) : Outcome Int)
       | some sizes =>
-        match sizes[(asUsize idx).toNat]? with
+        -- `usize::try_from(index)`: a negative or oversized index is out of range
+        match (if 0 ≤ idx then sizes[idx.toNat]? else none) with
         | some sz => .ok (((sz : Int) + 160) * env.coinsPerByte)
-        | none => .panic "ops.rs:compute_min_utxo:outputs.get(index).unwrap()")
+        | none => .err "CompilerOpFailed:CoerceError:output index")
     .ok (.node .assets [.leaf .none, .leaf .none, .leaf (.number lovelace)])
   | .computeTipSlot, [] => .ok (.leaf (.number env.slot))
   | .computeSlotToTime, [x] => do
     let slot ← liftNum (exprIntoNumber x)
     if slot < 0 then opErr "CoerceError:positive slot number" else
     let r := env.time + (slot - env.slot) * 1000
-    if inI128 ((slot - env.slot) * 1000) && inI128 r then .ok (.leaf (.number r))
-    else .panic "ops.rs:slot_to_time:overflow"
+    if inI128 env.time && inI128 ((slot - env.slot) * 1000) && inI128 r then .ok (.leaf (.number r))
+    else opErr "CoerceError:timestamp"
   | .computeTimeToSlot, [x] => do
     let time ← liftNum (exprIntoNumber x)
     if time < 0 then opErr "CoerceError:positive timestamp" else
-    .ok (.leaf (.number (env.slot + Int.tdiv (time - env.time) 1000)))
+    if inI128 env.time && inI128 (time - env.time) then
+      .ok (.leaf (.number (env.slot + Int.tdiv (time - env.time) 1000)))
+    else opErr "CoerceError:slot number"
   | _, _ => .err "shape:compiler"
 
 end Tx3
